@@ -12,7 +12,9 @@
 (*                     property fixes isolated zeros only), ok = FALSE     *)
 (*                     for a dead corner                                   *)
 (*  Mode "bg"        : bg_correct(raw, bg, dark) on positive denominators  *)
-(*  Mode "acc"       : Accumulator: actions Push(k); state = multiset      *)
+(*  Mode "acc"       : Accumulator: actions Push(k); state = multiset;     *)
+(*                     reading mean()/std() is a stuttering step (the       *)
+(*                     replay reads twice after every push)                 *)
 (*  Mode "detrend"   : actions AddPlane(a,b,c) on a base image; the        *)
 (*                     abstract state (base) never changes                 *)
 (*  Mode "crop"      : subimage windows that fit                           *)
